@@ -18,6 +18,8 @@ WALL_QUICK = 100
 WALL_THOROUGH = 1500
 RETRY = 100
 
+REACH_FOCUS = {'ebb_serial': ['query', 'command'], 'ebb_motion': ['QueryPRGButton', 'queryEBBLV', 'query_steps', 'query_enable_motors']}
+
 RULE = ("Scenario = 1..2 legacy-syntax boards with open ports + a sequence of 2..30 ebb_serial.command / "
         "ebb_serial.query calls (OK-terminated queries, the documented no-OK queries, commands; a few ebb_motion "
         "query helpers built on them) with state-changing commands interleaved so that payloads differ per request, "
@@ -246,10 +248,11 @@ def observe(scn, hist, st):
 
 # ---------------------------------------------------------------------------
 
-def _world(n=1, err_ok=False, fw=(2, 8, 1), style='linux'):
+def _world(n=1, err_ok=False, fw=(2, 8, 1), style='linux', nicks=None):
     boards = []
     for i in range(n):
-        spec = ebb_spec(PORT_NAMES[style][i], fw=fw, nick='Leg%d' % i, style=style)
+        nick = 'Leg%d' % i if nicks is None else nicks[i]
+        spec = ebb_spec(PORT_NAMES[style][i], fw=fw, nick=nick, style=style)
         spec['err_ok'] = err_ok
         spec['prior'] = {'ram': [11 + i] + [0] * 31, 'steps': [100 + i, -200 - i]}
         boards.append(spec)
@@ -269,12 +272,15 @@ def sweep_cells(tier):
         for err_ok in (False, True):
             for verbose in (True, False):
                 cells.append([kind, text, err_ok, verbose])
+    # a board without a nickname answers QT with a blank data line (then OK): still a data line
+    cells.append(['query', 'QT\r', False, True, 'blank'])
+    cells.append(['query', 'QT\r', True, False, 'blank'])
     return cells
 
 
 def sweep_expand(cell):
-    kind, text, err_ok, verbose = cell
-    world = _world(1, err_ok)
+    kind, text, err_ok, verbose = cell[:4]
+    world = _world(1, err_ok, nicks=[''] if len(cell) > 4 else None)
     port = world['boards'][0]['port']
     ops = [{'op': 'lopen', 'slot': 0, 'port': port},
            lcall('ebb_serial.command', [{'slot': 0}, 'SL,77\r']),
@@ -303,7 +309,8 @@ def gen(rng, idx):
     nb = rng.choice([1, 1, 1, 2])
     style = rng.choice(['mac', 'linux', 'win'])
     fw = rng.choice([(2, 5, 5), (2, 6, 2), (2, 8, 1), (3, 0, 2)])
-    world = _world(nb, err_ok=rng.random() < 0.5, fw=fw, style=style)
+    world = _world(nb, err_ok=rng.random() < 0.5, fw=fw, style=style,
+                   nicks=[rng.choice(['', 'Leg%d' % i, ' pad ']) for i in range(nb)])
     ops = []
     for i in range(nb):
         ops.append({'op': 'lopen', 'slot': i, 'port': world['boards'][i]['port']})
